@@ -21,6 +21,9 @@ for pid in sys.argv[1:]:
         if os.path.exists(mp):
             m = json.load(open(mp))
             used.append('- %s (files: %s)' % (m.get('breaks', '')[:600], ', '.join(m.get('files', []))))
+        elif os.path.exists('/tmp/seeded-out/%s%s/meta.json' % (pid, k)):
+            m = json.load(open('/tmp/seeded-out/%s%s/meta.json' % (pid, k)))
+            used.append('- %s (files: %s)' % (m.get('summary', '')[:600], ', '.join(m.get('files', []))))
     s += ('\n\nALREADY USED in an earlier round (do NOT repeat these or close variants; pick different '
           'mechanisms, files or code paths of the property; never use `git stash`):\n' + '\n'.join(used) + '\n')
     open('/tmp/seeded-out/prompt2-%s.txt' % pid, 'w').write(s)
